@@ -266,6 +266,29 @@ theorem write_failure_calls_justified {σ : Type} (fr : Framing) (cfg : ServerCf
     c ∈ (runSession fr cfg l hs script).calls :=
   (write_failure_prefix fr cfg l n hs script).2.subset hc
 
+/-- **write_failure_wire_spec** (C01): stated against the declarative reference server: the wire
+    carries exactly the first `n` framed replies of `Spec.Server.respond` folded over the frames the
+    reader delivered -/
+theorem write_failure_wire_spec {σ : Type} (fr : Framing) (cfg : ServerCfg σ) (l : DecodeLevel)
+    (n : Nat) (hs : List (Nat × σ)) (script : List SessStep) :
+    (runSessionW fr cfg l n hs script).tx
+      = (((specRun cfg hs (C01.sessionFrames fr script)).1.take n).map
+          fun p => frameOut fr p.1 p.2).flatten := by
+  rw [write_failure_wire, C01.runFrames_eq_spec]
+
+/-- the lost reply: when the fault is reached, the request whose reply could not be written is the
+    `(n+1)`-th answered request of the reference server, and it was executed: the handler states
+    are those after it -/
+theorem write_failure_states_spec {σ : Type} (fr : Framing) (cfg : ServerCfg σ) (l : DecodeLevel)
+    (n : Nat) (hs : List (Nat × σ)) (script : List SessStep) :
+    (runSessionW fr cfg l n hs script).states
+      = (specRun cfg hs (sessionFramesW fr cfg n hs script)).2.2
+    ∧ (runSessionW fr cfg l n hs script).calls
+      = (specRun cfg hs (sessionFramesW fr cfg n hs script)).2.1 := by
+  have h := write_failure_session fr cfg l n hs script
+  rw [h.2.1, h.2.2.1, C01.runFrames_eq_spec]
+  exact ⟨rfl, rfl⟩
+
 /-! ## Non-vacuity -/
 
 open Demo
